@@ -134,6 +134,9 @@ def numpy_harness(L, sw, ch, n):
         meta = dict(kind="numpy", sw=sw, ch=ch, n=n)
         try:
             reg = core.AudioRegion(data, 10, sw, ch)
+            first = reg.numpy()
+            # the caller scribbles over the array it was given (in-place normalisation, say); a later export must not see it
+            first.flat[:] = [z3.RealVal(0)] * len(first.flat)
             arr = reg.numpy()
         except Exception as ex:
             return now(e, "raised %s: %s" % (type(ex).__name__, str(ex)[:80]), meta)
@@ -256,7 +259,13 @@ def replay_numpy(c):
     fmt = {1: "b", 2: "h", 4: "i"}[sw]
     vals = struct.unpack("<%d%s" % (ch * n, fmt), raw)
     try:
-        arr = ak.AudioRegion(raw, 10, sw, ch).numpy()
+        reg = ak.AudioRegion(raw, 10, sw, ch)
+        first = reg.numpy()
+        try:
+            first[:] = 0
+        except Exception:
+            pass                    # a read-only export is fine too
+        arr = reg.numpy()
     except Exception as ex:
         return [("C18: numpy() raises %s" % type(ex).__name__, str(ex))]
     want = [[vals[i * ch + c_] for i in range(n)] for c_ in range(ch)]
